@@ -260,20 +260,20 @@ func (o *optimizer) etaReduction() {
 	// f must denote the same function value whenever the closure would have been called:
 	// a declared function, or a method of a generated iterator (never reassigned).
 	// builtin, conversion, func var, method value of user var (receiver bound early) are not
-	var stable func(ctx astmatcher.Ctx, fun ast.Expr, instantiated bool) bool
-	stable = func(ctx astmatcher.Ctx, fun ast.Expr, instantiated bool) bool {
+	var stable func(ctx astmatcher.Ctx, fun ast.Expr, typeArgs int) bool
+	stable = func(ctx astmatcher.Ctx, fun ast.Expr, typeArgs int) bool {
 		declared := func(id *ast.Ident) *types.Func {
 			f, _ := ctx.ObjectOf(id).(*types.Func)
-			if f != nil && !instantiated && f.Type().(*types.Signature).TypeParams().Len() > 0 {
-				return nil // generic func needs explicit instantiation as value
+			if f != nil && f.Type().(*types.Signature).TypeParams().Len() != typeArgs {
+				return nil // generic func needs explicit and full instantiation as value
 			}
 			return f
 		}
 		switch fun := fun.(type) {
 		case *ast.IndexExpr:
-			return stable(ctx, fun.X, true)
+			return stable(ctx, fun.X, 1)
 		case *ast.IndexListExpr:
-			return stable(ctx, fun.X, true)
+			return stable(ctx, fun.X, len(fun.Indices))
 		case *ast.Ident:
 			return declared(fun) != nil
 		case *ast.SelectorExpr:
@@ -320,7 +320,7 @@ func (o *optimizer) etaReduction() {
 				d, _ := ctx.Stack[i+1].(*ast.DeferStmt)
 				return call != nil && d != nil && d.Call == call && call.Fun == fun
 			}
-			if matched(ctx, params, args) && stable(ctx, fun, false) && sameType() && !deferred() {
+			if matched(ctx, params, args) && stable(ctx, fun, 0) && sameType() && !deferred() {
 				c.Replace(fun)
 			}
 		},
